@@ -60,11 +60,16 @@ impl CaoLangAllocator {
         Self {
             runtime: vm,
             allocated: AtomicUsize::new(0),
-            next_gc: AtomicUsize::new((limit / 4).max(16)),
+            next_gc: AtomicUsize::new(Self::first_gc_threshold(limit)),
             limit: AtomicUsize::new(limit),
             #[cfg(feature = "verif-hooks")]
             verif: Default::default(),
         }
+    }
+
+    /// Usage above which the first collection runs
+    pub fn first_gc_threshold(limit: usize) -> usize {
+        (limit / 4).max(16)
     }
 
     /// # Safety
@@ -74,23 +79,30 @@ impl CaoLangAllocator {
         #[cfg(feature = "verif-hooks")]
         let verif_idx = self.verif.begin_alloc(self);
         let s = l.size() + l.align();
-        let allocated = s + self.allocated.fetch_add(s, Ordering::Relaxed);
-        if allocated > self.limit.load(Ordering::Relaxed) {
+        let mut allocated = s + self.allocated.fetch_add(s, Ordering::Relaxed);
+        let limit = self.limit.load(Ordering::Relaxed);
+        // collect when the threshold is crossed, and always before giving up on the limit
+        if (allocated > self.next_gc.load(Ordering::Relaxed) || allocated > limit)
+            && !self.runtime.is_null()
+        {
+            unsafe {
+                (*self.runtime).gc();
+            }
+            let before = allocated;
+            allocated = self.allocated.load(Ordering::Relaxed);
+            // collect again once the surviving data has doubled
+            self.next_gc.store(
+                allocated.saturating_mul(2).max(Self::first_gc_threshold(limit)),
+                Ordering::Relaxed,
+            );
+            debug!("GC done. Allocated before: {before}. Allocated now: {allocated}");
+        }
+        if allocated > limit {
             // the request is not granted, so it is not charged either
             self.allocated.fetch_sub(s, Ordering::Relaxed);
             #[cfg(feature = "verif-hooks")]
             self.verif.end_alloc(self, verif_idx, l, 0, false);
             return Err(AllocError::OutOfMemory);
-        }
-        if allocated > self.next_gc.load(Ordering::Relaxed) {
-            self.next_gc.store(allocated * 2, Ordering::Relaxed);
-            unsafe {
-                (*self.runtime).gc();
-            }
-            debug!(
-                "GC done. Allocated before: {allocated}. Allocated now: {}",
-                self.allocated.load(Ordering::Relaxed)
-            );
         }
         #[cfg(feature = "verif-hooks")]
         if self.verif.should_force_gc(verif_idx) && !self.runtime.is_null() {
